@@ -137,6 +137,10 @@ def _check_batch(ctx, pairs, ref, hyp, eos, include_eos, cost, tier, tag, module
                     out = mod(r_in, h_in)
                 if not (torch.equal(r0, r_in) and torch.equal(h0, h_in)):
                     raise AssertionError("argument modified in place")
+                kept = out.clone()
+                F.edit_distance(h_in.flip(0), r_in.flip(0), warn=False, **kw)  # a later, unrelated call
+                if not torch.equal(kept, out):
+                    raise AssertionError("result of an earlier call changed after a later call (aliased buffer)")
                 out = out.tolist()
                 err = None
             except Exception as e:  # a legal input must not raise
@@ -187,6 +191,10 @@ def _check_batch(ctx, pairs, ref, hyp, eos, include_eos, cost, tier, tag, module
                         out = mod(r_in, h_in)
                     if not (torch.equal(r0, r_in) and torch.equal(h0, h_in)):
                         raise AssertionError("argument modified in place")
+                    kept = out.clone()
+                    F.prefix_edit_distances(r_in.flip(0), h_in.flip(0), padding=padding, warn=False, **kw)
+                    if not torch.equal(kept, out):
+                        raise AssertionError("result of an earlier call changed after a later call (aliased buffer)")
                     if batch_first:
                         out = out.t()
                     rows = H + (0 if exclude_last else 1)
